@@ -4,6 +4,7 @@ CONSTANTS
   DevPerHandle = FALSE
   DevUnguardedFill = FALSE
   DevFillOnError = TRUE
+  DevKeyNoMethod = FALSE
   NR = 2
   MaxFaults = 1
 VIEW MView
